@@ -102,8 +102,25 @@ def explain_pair(axis, ca, cb, ta, tb, ex, src, fnd, stats):
     def viol(kind, path, what):
         fnd.report('%s axis=%s path=%s' % (kind, axis, re.sub(r'\.apparmor\.d$', '', path)), '%s: %s' % (where, what), {'a': ca._asdict(), 'b': cb._asdict(), 'path': path})
     keys = sorted(set(ta) | set(tb))
+    # ABI 4 builds ship some profiles under <name>.apparmor.d (overwrite step): the renamed file is the same profile and
+    # is compared with its ABI 3 counterpart like any other file present on both sides
+    renamed = {}
+    if axis == 'abi':
+        for k in keys:
+            k2 = k + '.apparmor.d'
+            if (k in ta) != (k in tb) and (k2 in ta) != (k2 in tb) and (k in ta) != (k2 in ta):
+                renamed[k] = k2
+    work = []
     for k in keys:
-        ea, eb = ta.get(k), tb.get(k)
+        if k in renamed:
+            ea = ta.get(k) or ta.get(renamed[k]); eb = tb.get(k) or tb.get(renamed[k])
+            stats['renamed_pairs_compared'] = stats.get('renamed_pairs_compared', 0) + 1
+            work.append((k, ea, eb))
+        elif k in renamed.values():
+            continue
+        else:
+            work.append((k, ta.get(k), tb.get(k)))
+    for k, ea, eb in work:
         if ea == eb:
             continue
         stats['entries_differing'] += 1
